@@ -95,6 +95,7 @@ impl Engine {
                             if self.check_outcome(opk, sit, &plan.refusals, &res, &r.show())? {
                                 if plan.existing_is_stream == Some(true) {
                                     self.model.get_mut(names).unwrap().kind = Kind::Stream { data: vec![] };
+                                    self.settle_replaced_state(names)?;
                                 } else {
                                     self.model.insert(&plan.parent, Node { name: plan.name.clone(), state: 0, kind: Kind::Stream { data: vec![] } });
                                 }
